@@ -34,6 +34,24 @@ void harness(void) {
   pre.type = LTYPE; pre.opaque = LOPAQUE; pre.L = N;
 #endif
   pre.L = N;   /* the length is CONCRETE per query (assigned, so that symex propagates the constant) */
+  /* optional case split on the SHAPE of the state: the named quantity is ASSIGNED a constant (so that symex prunes the
+     branches that depend on it) or constrained to the complementary case; the union of the cases of an obligation
+     family is all states (each family lists its cases in obligations.py) */
+#ifdef SH_HASH
+  if (SH_HASH) ASSUME(pre.c[7] != OMIT); else pre.c[7] = OMIT;
+#endif
+#ifdef SH_SEARCH
+  if (SH_SEARCH) ASSUME(pre.c[6] != OMIT); else pre.c[6] = OMIT;
+#endif
+#ifdef SH_PORT
+  if (SH_PORT) ASSUME(pre.c[4] != OMIT); else pre.c[4] = OMIT;
+#endif
+#ifdef SH_TYPE
+  pre.type = SH_TYPE;
+#endif
+#ifdef SH_OPAQUE
+  pre.opaque = SH_OPAQUE;
+#endif
   ASSUME(INV(&pre));
 #ifdef PRE
   ASSUME(PRE);
@@ -58,5 +76,6 @@ void harness(void) {
     CHECK(valid, "the library's own validate() accepts the object after the operation");
     CHECK(INV(&post), "representation invariant (offset grammar, record invariants) holds after the operation");
 #include "step_ops.h"
+    REACH("the operation was executed from a state of this shape");
   }
 }
